@@ -40,7 +40,11 @@ def chunk_contents(full):
     fields = FIXED + TRAIL
     out += [(f,) for f in fields]
     if full:
-        out += [(a, b) for a in FIXED for b in fields]
+        # the zero-width and exactly-filled padded kinds pair with a reduced set of second fields (keeps the thorough tier
+        # within its budget); every other fixed kind pairs with every field
+        new_kinds = ("fstr0", "pfit")
+        out += [(a, b) for a in FIXED if a[0] not in new_kinds for b in fields]
+        out += [(a, b) for a in FIXED if a[0] in new_kinds for b in (("char", 252), ("str", "ÿ"), ("int", P4 - 1), ("fstr", "aÿ"))]
     else:
         out += [(("char", 252), ("str", "ÿ")), (("short", 253), ("int", P4 - 1)), (("fstr", "aÿ"), ("estr", "ÿa")), (("three", P3 - 1), ("str", ""))]
     return out
